@@ -12,6 +12,11 @@
 (*           forward references, cycle, shared node reached twice,         *)
 (*           backward + self reference, complete graph                     *)
 (*   sparse  IDs 0,1,2 or 7,8,10,19                                        *)
+(*   big     0: IDs as `sparse` says; k > 0: the IDs around 2^k,           *)
+(*           Metadata!AroundPow(k) = 2^k - 1, 2^k, 2^k + 1, 2^k + 2 (model *)
+(*           IDs: for k = 31, 32 the IDs around the end of int32 and of    *)
+(*           uint32, see PART 3 of Metadata.tla) -- where a table, a cast  *)
+(*           or an index by ID in the parser or the printer may end        *)
 (*   perm    textual order of the definitions (a permutation)              *)
 (*   dm      distinct: 0 none, 1 all, 2 only the first                     *)
 (*   inl     0: operands are plain references; 1: every reference is       *)
@@ -26,6 +31,10 @@
 (*           4 = the same name twice with different nodes                  *)
 (*   nv      named metadata: 0 none; 1 one definition (before the nodes it *)
 (*           names); 2: !a, !b, !a again; 3: !a three times around !b      *)
+(* Dense patterns (n = Dense definitions, IDs 0..n-1, chain of forward     *)
+(* references or every node referring to the first one, written in ID     *)
+(* order or in reverse): a module the size of real debug info, crossing    *)
+(* every boundary below Dense.                                             *)
 (* Around it the renderer (harness/props/c17) puts a fixed scaffold: a     *)
 (* global, a function declaration, a function definition, an instruction   *)
 (* and a terminator, each with p.ac attachments, and two calls with        *)
@@ -53,7 +62,10 @@
 (***************************************************************************)
 EXTENDS Integers, Sequences, FiniteSets, TLC, Json, IOUtils
 
-CONSTANTS MaxN, Emit
+CONSTANTS MaxN,      \* largest number of definitions of the enumerated patterns
+          BigPows,   \* the k of the large-ID patterns (subset of 7..32)
+          Dense,     \* number of definitions of the dense patterns (0: none)
+          Emit
 
 VARIABLES pat, stage
 vars == <<pat, stage>>
@@ -64,18 +76,26 @@ M == INSTANCE Metadata WITH MaxDefs <- 0, MaxId <- 0, Variant <- "code", Emit <-
 Perms(n) == {s \in [1..n -> 1..n] : \A i, j \in 1..n : i # j => s[i] # s[j]}
 
 Patterns == UNION {
-  [n : {n}, shape : 1..M!NShapes, sparse : BOOLEAN, perm : Perms(n), dm : 0..2, inl : 0..2, nv : 0..3, sp : {0}, ac : {1}]
+  [n : {n}, shape : 1..M!NShapes, sparse : BOOLEAN, perm : Perms(n), dm : 0..2, inl : 0..2, nv : 0..3, sp : {0}, ac : {1}, big : {0}]
   \cup
   \* 0, 2, 3 attachments per position and repeated names, on a slice of the matrix
-  [n : {n}, shape : 1..M!NShapes, sparse : BOOLEAN, perm : Perms(n), dm : {0}, inl : 0..1, nv : {0}, sp : {0}, ac : {0, 2, 3, 4}]
+  [n : {n}, shape : 1..M!NShapes, sparse : BOOLEAN, perm : Perms(n), dm : {0}, inl : 0..1, nv : {0}, sp : {0}, ac : {0, 2, 3, 4}, big : {0}]
   \cup
   \* non-canonical spellings of the IDs, on a slice of the matrix
-  [n : {n}, shape : 1..M!NShapes, sparse : BOOLEAN, perm : Perms(n), dm : {0}, inl : 0..1, nv : {0, 2}, sp : 1..3, ac : {2}]
+  [n : {n}, shape : 1..M!NShapes, sparse : BOOLEAN, perm : Perms(n), dm : {0}, inl : 0..1, nv : {0, 2}, sp : 1..3, ac : {2}, big : {0}]
+  \cup
+  \* large and boundary IDs, on a slice of the matrix
+  [n : {n}, shape : {2, 3, 5}, sparse : {TRUE}, perm : Perms(n), dm : {2}, inl : 0..1, nv : {2}, sp : {0, 3}, ac : {2}, big : BigPows]
   : n \in 1..MaxN }
+  \cup
+  \* dense: many definitions
+  (IF Dense = 0 THEN {} ELSE
+   [n : {Dense}, shape : {2, 4}, sparse : {FALSE}, perm : {[i \in 1..Dense |-> i], [i \in 1..Dense |-> Dense + 1 - i]},
+    dm : {0}, inl : {0}, nv : {1}, sp : {0}, ac : {1}, big : {0}])
 
 ---------------------------------------------------------------------------
 SparseIds == <<7, 8, 10, 19>>   \* with a leading zero: 07, 08 (no octal number), 010, 019
-IdOf(p, i)   == IF p.sparse THEN SparseIds[i] ELSE i - 1
+IdOf(p, i)   == IF p.big > 0 THEN M!AroundPow(p.big)[i] ELSE IF p.sparse THEN SparseIds[i] ELSE i - 1
 IsDistinct(p, i) == p.dm = 1 \/ (p.dm = 2 /\ i = 1)
 
 Ref(p, j)    == [k |-> "ref", id |-> IdOf(p, j), same |-> TRUE]
